@@ -159,10 +159,105 @@ def traverse_facts(ctx, cq):
         F["dir.loop"] = Fact(desc, l, fn)
         ret = [n for n in fn.node.body if isinstance(n, ast.Return)]
         F["dir.return"] = Fact("returns the tree" if ret and stores and norm(ret[-1].value) == norm(stores[0].targets[0].value) else "?", ret[-1] if ret else l, fn)
+    # ---- how the traversal is entered: once, on the content root, its result being the file tree
+    entries = []
+    for f in ctx.prog.functions.values():
+        if f is fn:
+            continue
+        for n in own_nodes(f.node):
+            if isinstance(n, ast.Call) and any(t is fn for t in C.targets_of(ctx, f, n)):
+                entries.append((f, n))
+    if not entries:
+        F["entry.call"] = und("no call of the traversal found outside itself", fn.node, fn)
+    else:
+        bad = []
+        for f, call in entries:
+            st = ctx.prog.enclosing_stmt(call)
+            arg = norm(call.args[0]) if len(call.args) == 1 and not call.keywords else "?"
+            stored = isinstance(st, ast.Assign) and len(st.targets) == 1 and isinstance(st.targets[0], ast.Subscript) and const_str(st.targets[0].slice) == "file tree" \
+                and (st.value is call or (isinstance(st.value, ast.Dict) and len(st.value.values) == 1 and st.value.values[0] is call))
+            if arg != "%s.path" % f.self_name:
+                bad.append("%s calls it on `%s`, not on the content root" % (f.name, arg))
+            elif C.in_loop(ctx, f, call):
+                bad.append("%s calls it inside a loop: the order of the v1 entries / pieces is that loop's, not the tree's" % f.name)
+            elif not stored:
+                bad.append("%s does not store its result as info['file tree'] (`%s`)" % (f.name, norm(st)[:80]))
+        F["entry.call"] = Fact("; ".join(bad) if bad else "entered on the content root, outside any loop, result stored as info['file tree']", entries[0][1], entries[0][0])
+    F["single.key"] = single_file_key(ctx, cls, fn)
     return F, fn, fb, sv, hv
 
 
+class _DropAbspath(ast.NodeTransformer):
+    """basename(abspath(p)) and basename(p) name the same final component for a path that names an existing file."""
+
+    def visit_Call(self, n):
+        self.generic_visit(n)
+        if norm(n.func) in ("os.path.abspath", "os.path.normpath") and len(n.args) == 1:
+            return n.args[0]
+        return n
+
+
+def _name_nf(expr):
+    import copy
+    return norm(_DropAbspath().visit(copy.deepcopy(expr)))
+
+
+def single_file_key(ctx, cls, trav):
+    """The key under which a single-file payload's leaf is stored in the file tree must be the recorded name."""
+    asm = cls.methods.get("assemble")
+    if asm is None:
+        return und("assemble not found", None, trav)
+    keys = []
+    for n in own_nodes(asm.node):
+        if isinstance(n, ast.Assign) and isinstance(n.targets[0], ast.Subscript) and const_str(n.targets[0].slice) == "file tree" and isinstance(n.value, ast.Dict) \
+                and len(n.value.keys) == 1 and n.value.keys[0] is not None:
+            keys.append((n, n.value.keys[0]))
+    if len(keys) != 1:
+        return und("single-file tree literal {name: leaf} not found (%d candidates)" % len(keys), asm.node, asm)
+    st, k = keys[0]
+    # what is recorded as info['name'] (in the family's constructor chain)
+    rec = []
+    name_defs = {}
+    for c in ctx.prog.mro(cls):
+        for m in c.methods.values():
+            for x in own_nodes(m.node):
+                if isinstance(x, ast.Assign):
+                    for t in x.targets:
+                        if isinstance(t, ast.Subscript) and const_str(t.slice) == "name" and const_str(getattr(t.value, "slice", None)) == "info":
+                            rec.append((m, x.value))
+                        if isinstance(t, ast.Attribute) and isinstance(t.value, ast.Name) and t.value.id == m.self_name:
+                            name_defs.setdefault(t.attr, []).append((m, x.value))
+    if len(rec) != 1:
+        return und("store of info['name'] not found exactly once (%d)" % len(rec), st, asm)
+
+    def nfs(e, seen=(), only=None):
+        if isinstance(e, ast.Subscript) and const_str(e.slice) == "name":
+            return {"<recorded name>"}
+        if isinstance(e, ast.Attribute) and isinstance(e.value, ast.Name) and e.attr in name_defs and e.attr not in seen:
+            out = set()
+            for m, v in name_defs[e.attr]:
+                if only is None or m is only:
+                    out |= nfs(v, seen + (e.attr,), only)
+            return out
+        if isinstance(e, ast.Name):
+            # a local with a single definition in the recording method
+            for m in ([only] if only is not None else []):
+                vals = [x.value for x in own_nodes(m.node) if isinstance(x, ast.Assign) and len(x.targets) == 1 and isinstance(x.targets[0], ast.Name) and x.targets[0].id == e.id]
+                if len(vals) == 1 and e.id not in seen:
+                    return nfs(vals[0], seen + (e.id,), only)
+        return {_name_nf(e)}
+    want = nfs(rec[0][1], (), rec[0][0])
+    have = nfs(k)
+    if "<recorded name>" in have:
+        have = (have - {"<recorded name>"}) | want
+    if have == want and len(want) == 1:
+        return Fact("the recorded name (info['name'])", k, asm)
+    return Fact("`%s`, defined as %s, while info['name'] is %s" % (norm(k), " / ".join(sorted(have)), " / ".join(sorted(want))), k, asm)
+
+
 SPEC_TRAVERSE = {
+    "single.key": "the recorded name (info['name'])",
+    "entry.call": "entered on the content root, outside any loop, result stored as info['file tree']",
     "size": "getsize(path)",
     "empty.leaf": "length-only leaf returned iff size == 0, before any hashing",
     "empty.length": "length = size",
